@@ -49,6 +49,7 @@ func (c06) Cases(tier string, seed int64, kf *KnownFindings) []Case {
 	cs = append(cs, Case{Kind: "lit", S: "untyped-resent-reverse", Count: 4, Sub: -1})
 	cs = append(cs, Case{Kind: "lit", S: "named-map-with-containers", Count: 4, Sub: -1})
 	cs = append(cs, Case{Kind: "lit", S: "two-names-one-type", Count: 4, Sub: -1})
+	cs = append(cs, Case{Kind: "lit", S: "untyped-empty", Count: 4, Sub: -1})
 	if tier == "thorough" {
 		// all histories of length <= 3 over a 12-value alphabet: 12 + 144 + 1728
 		for a := 0; a < 12; a++ {
@@ -185,6 +186,11 @@ func (c06) Run(c Case, env *Env) Result {
 				// strings that end in a cut-off lead octet, each followed by a value whose first octets
 				// could be taken for continuation octets (x80..xbf are the one-octet ints -16..47)
 				hist = []interface{}{"ab\xe4", int32(0), "x\xf0\x9f", int32(16), int32(47), "\xc3", int32(-16), "caf\xe9", "tail", &zoo.Inner{A: 1, S: "z\xe4\xb8"}, int32(1)}
+			case "untyped-empty":
+				// empty and nil lists travelling untyped: first inside a typed field, then (as the encoder sees
+				// it: the same empty container again) at a generic position, and the other way round
+				hist = []interface{}{&zoo.SlInt64{}, []int64(nil), "between", &zoo.SlPtr{V: []*zoo.Inner{}}, []*zoo.Inner{}, []string{}, &zoo.SlStr{V: []string{}}, &zoo.SlStr{}, "tail"}
+				untyped = true
 			case "untyped-resent", "untyped-resent-reverse":
 				ss := []string{"p", "q", "r"}
 				is := []int64{1 << 40, 2}
